@@ -15,7 +15,7 @@ import e2e
 import impl
 import preccorr
 
-LEAN_TARGETS = ["CM.Props.Lift", "CM.Props.C08", "CM.Props.Prec", "CM.Props.C08Gen", "CM.Props.PrecSem", "CM.Props.PrecSemInv"]
+LEAN_TARGETS = ["CM.Props.Lift", "CM.Props.C08", "CM.Props.Prec", "CM.Props.C08Gen", "CM.Props.PrecSem", "CM.Props.PrecSemInv", "CM.Props.C02Scope"]
 THEOREMS = [
     "CM.Pipeline.C08_run_equiv",
     "CM.Pipeline.run_preserves",
@@ -39,6 +39,8 @@ THEOREMS = [
     "CM.Prec.C08_inv_table_from_source",
     "CM.Prec.C08_inv_source_involutive",
     "CM.Prec.C08_invert_source_total",
+    "CM.Scope.C08_clean_keeps_effects",
+    "CM.Scope.C08_clean_old_drops_effect",
 ]
 RULE = (
     "generated closed deterministic programs per refactoring family (operand kinds, and/or/not nesting and parenthesisation, tuple vs "
@@ -256,6 +258,10 @@ def fam_sql(rng):
                         "\"SELECT * FROM t WHERE a = '%s'\" % name", "f\"SELECT * FROM t WHERE a = '{name}'\"",
                         "\"SELECT * FROM t WHERE a = '\" + name + \"' OR a = '\" + other + \"'\""])
         out.append(head + f"name = {v}\nother = 'y'\ncur.execute({q})\nprint(sorted(cur.fetchall()))\n")
+    # the clean-up pass of the codemod runs over the whole module: an unused local whose right-hand side has an effect
+    for rhs in ["note('ran')", "[note('in list')]", "(yielded := note('walrus'))"]:
+        out.append(head + "def note(msg):\n    print('NOTE', msg)\n    return 1\n\n\ndef unrelated():\n    status = " + rhs + "\n    return 5\n\n\n"
+                   "def lookup(name):\n    cur.execute(\"SELECT * FROM t WHERE a = '\" + name + \"'\")\n    return sorted(cur.fetchall())\n\n\nprint(unrelated(), lookup('x'))   # must\n")
     return out
 
 
@@ -443,6 +449,29 @@ def corr(ctx):
         after = a["z_inverted"] if kind == "z" else (a["b_combined"] if not a["and_folds"] else want)
         ctx.corr_case("prec_eval", {"code": code, "env": env}, {"value": want, "after_rewrite": want}, {"value": a[kind], "after_rewrite": after}, True,
                       "eval:" + kind + (":and-fold" if a.get("and_folds") and kind == "b" else ""))
+
+    # 5. the clean-up pass of sql-parameterization (CM.Scope): which right-hand sides with an effect are left, model against the real
+    #    `RemoveUnusedVariables`; the property on the real output: none of them is gone
+    import scopecorr
+    bodies = [scopecorr.gen_body(rng) for _ in range(ctx.pick(120, 1200))]
+    bodies.append([{"k": "assign", "n": "a", "eff": True}, {"k": "assign", "n": "b", "eff": False}, {"k": "scope", "b": [{"k": "assign", "n": "v", "eff": True}]}])
+    codes = [scopecorr.program(b) for b in bodies]
+    inputs = [scopecorr.parse_back(c) for c in codes]
+    for b, code, a in zip(inputs, codes, common.lean_ask([{"op": "scope_clean", "body": b} for b in inputs])):
+        if "err" in a:
+            ctx.broke("scope_clean driver op", str(a)); break
+        after = scopecorr.real_clean(code)
+        got = scopecorr.effects_of(scopecorr.parse_back(after))
+        drops = a["cleaned"] != a["cleaned_no_guard"]
+        ctx.corr_case("scope_effects", {"program": code}, {"effects_after": got}, {"effects_after": a["effects_after"]}, bool(a["effects"]),
+                      "effects:" + ("none" if not a["effects"] else ("dead-effectful-assignment" if drops else "all-read")))
+        if a["effects_after"] != a["effects"]:
+            ctx.broke("CM.Scope.C08_clean_keeps_effects instance", code)
+        ctx.search_case("clean-up-effects", {"program": code}, bool(a["effects"]))
+        if got != a["effects"]:
+            ctx.fail({"kind": "behaviour-changed", "codemod": "pixee:python/sql-parameterization", "shape": "clean-up-drops-effect"},
+                     f"RemoveUnusedVariables (the clean-up pass of sql-parameterization) removed an assignment whose right-hand side is a call: effects {a['effects']} -> {got}",
+                     {"before": code, "after": after})
 
 
 def execute(code: str, cwd) -> str:
